@@ -19,36 +19,64 @@ Ltac trig_ring := match goal with
   | H1 : _ * _ = 1 - _ |- _ => first [ring [H1] | field [H1] | (field_simplify_eq; ring [H1])]
   end.
 Ltac solve_entry := first [ field | ring | trig_ring | lazymatch goal with |- ?a = ?a => reflexivity end ].
+Ltac pc_zero := intros; autounfold with gen; ops_R; trig_abs; repeat split;
+  (let H := fresh "H" in intro H;
+   match type of H with ?b < ?a =>
+     let E := fresh "E" in assert (E : a = 0) by solve_entry; rewrite E in H; lra end).
 Ltac law := intros; unfold halves_eq; autounfold with gen; ops_R; cbn [firstn skipn]; trig_abs; list_eq solve_entry.
 
 Lemma law_transform_mueller_lin s0 s1 s2 s3 j00r j00i j01r j01i j10r j10i j11r j11i :
   halves_eq 4 (transform_mueller_lin (OO:=ROps) s0 s1 s2 s3 j00r j00i j01r j01i j10r j10i j11r j11i).
 Proof. law. Qed.
 
+Lemma pc_transform_mueller_lin s0 s1 s2 s3 j00r j00i j01r j01i j10r j10i j11r j11i : transform_mueller_lin_pc (OO:=ROps) s0 s1 s2 s3 j00r j00i j01r j01i j10r j10i j11r j11i.
+Proof. pc_zero. Qed.
+
 Lemma law_transform_congruence_lin s0 s1 s2 s3 j00r j00i j01r j01i j10r j10i j11r j11i :
   halves_eq 8 (transform_congruence_lin (OO:=ROps) s0 s1 s2 s3 j00r j00i j01r j01i j10r j10i j11r j11i).
 Proof. law. Qed.
+
+Lemma pc_transform_congruence_lin s0 s1 s2 s3 j00r j00i j01r j01i j10r j10i j11r j11i : transform_congruence_lin_pc (OO:=ROps) s0 s1 s2 s3 j00r j00i j01r j01i j10r j10i j11r j11i.
+Proof. pc_zero. Qed.
 
 Lemma law_invariant_scaling_lin s0 s1 s2 s3 j00r j00i j01r j01i j10r j10i j11r j11i :
   halves_eq 1 (invariant_scaling_lin (OO:=ROps) s0 s1 s2 s3 j00r j00i j01r j01i j10r j10i j11r j11i).
 Proof. law. Qed.
 
+Lemma pc_invariant_scaling_lin s0 s1 s2 s3 j00r j00i j01r j01i j10r j10i j11r j11i : invariant_scaling_lin_pc (OO:=ROps) s0 s1 s2 s3 j00r j00i j01r j01i j10r j10i j11r j11i.
+Proof. pc_zero. Qed.
+
 Lemma law_transform_mueller_circ s0 s1 s2 s3 j00r j00i j01r j01i j10r j10i j11r j11i :
   halves_eq 4 (transform_mueller_circ (OO:=ROps) s0 s1 s2 s3 j00r j00i j01r j01i j10r j10i j11r j11i).
 Proof. law. Qed.
+
+Lemma pc_transform_mueller_circ s0 s1 s2 s3 j00r j00i j01r j01i j10r j10i j11r j11i : transform_mueller_circ_pc (OO:=ROps) s0 s1 s2 s3 j00r j00i j01r j01i j10r j10i j11r j11i.
+Proof. pc_zero. Qed.
 
 Lemma law_transform_congruence_circ s0 s1 s2 s3 j00r j00i j01r j01i j10r j10i j11r j11i :
   halves_eq 8 (transform_congruence_circ (OO:=ROps) s0 s1 s2 s3 j00r j00i j01r j01i j10r j10i j11r j11i).
 Proof. law. Qed.
 
+Lemma pc_transform_congruence_circ s0 s1 s2 s3 j00r j00i j01r j01i j10r j10i j11r j11i : transform_congruence_circ_pc (OO:=ROps) s0 s1 s2 s3 j00r j00i j01r j01i j10r j10i j11r j11i.
+Proof. pc_zero. Qed.
+
 Lemma law_invariant_scaling_circ s0 s1 s2 s3 j00r j00i j01r j01i j10r j10i j11r j11i :
   halves_eq 1 (invariant_scaling_circ (OO:=ROps) s0 s1 s2 s3 j00r j00i j01r j01i j10r j10i j11r j11i).
 Proof. law. Qed.
+
+Lemma pc_invariant_scaling_circ s0 s1 s2 s3 j00r j00i j01r j01i j10r j10i j11r j11i : invariant_scaling_circ_pc (OO:=ROps) s0 s1 s2 s3 j00r j00i j01r j01i j10r j10i j11r j11i.
+Proof. pc_zero. Qed.
 
 Lemma law_spinor_lin xr xi yr yi j00r j00i j01r j01i j10r j10i j11r j11i :
   halves_eq 4 (spinor_lin (OO:=ROps) xr xi yr yi j00r j00i j01r j01i j10r j10i j11r j11i).
 Proof. law. Qed.
 
+Lemma pc_spinor_lin xr xi yr yi j00r j00i j01r j01i j10r j10i j11r j11i : spinor_lin_pc (OO:=ROps) xr xi yr yi j00r j00i j01r j01i j10r j10i j11r j11i.
+Proof. pc_zero. Qed.
+
 Lemma law_detect_lin xr xi yr yi :
   halves_eq 4 (detect_lin (OO:=ROps) xr xi yr yi).
 Proof. law. Qed.
+
+Lemma pc_detect_lin xr xi yr yi : detect_lin_pc (OO:=ROps) xr xi yr yi.
+Proof. pc_zero. Qed.
